@@ -18,6 +18,14 @@ def sections(case):
 
 class C08(MTCheck):
     pid = "C08"
+
+    def sibling_stages(self):
+        # "the owner included ... the owner's loop activity never leaves the owner blocked with an undelivered post": posts made
+        # by the owner itself are delivered through the loop's internal task and depend on the main loop's timeout logic
+        # (iv_main_posix.c / iv_fd.c), which the core-loop machinery drives: C07 (clauses 708 / 710: no sleeping wait, no
+        # hang with an undelivered self-post; 602 / 604 for the internal task)
+        import corecheck
+        return [("C07", corecheck.C07)]
     extract_v = "Extract/ExtractEventMT.v"
     model_ml = "eventmt_model.ml"
     driver_in = "eventmt_drv.ml.in"
